@@ -58,7 +58,7 @@ struct Sched {
     std::vector<GcEvent> gc_events; std::vector<size_t> gc_active; uint64_t gc_serial = 0;
     void reset(uint64_t s, int t, bool thr) { seed = s; region = 0; threads = t; threaded = thr; }
 };
-inline Sched& S() { static Sched s; return s; }
+inline Sched& S() { static Sched *s = new Sched(); return *s; }   // never destroyed: objects with static storage in the code under test (parmcb keeps a global_control alive until exit) may outlive any static of ours
 inline int& depth() { static thread_local int d = 0; return d; }
 
 // random cut points: returns leaf boundaries b_0=0 < b_1 < ... < b_L = n
